@@ -26,7 +26,7 @@ Print Assumptions C04_encode_is_schema.
 
 (** Consequently decoding a cell and encoding the result reproduces the cell
     (hence its hash) whenever the cell is the schema's serialisation of the
-    decoded value — which fails only where TL-B itself admits several
+    decoded value — which fails only where TL-B itself allows several
     serialisations of one value: non-minimal VarUInteger lengths, the three
     dictionary label forms.  (Dictionary bodies are uninterpreted cells here
     and are reproduced verbatim.) *)
